@@ -11,13 +11,13 @@ import (
 func init() {
 	register("C19", &ruleSet{
 		run:    runC19,
-		floors: map[string]int{"O1": 2, "O2": 2, "O3": 30},
+		floors: map[string]int{"O1": 2, "O2": 2, "O3": 30, "O4": 20},
 		explain: "Decides the composition of the pools, from which the safety half ('never more than the limit held') follows through C01/C02 on the composed stack: (O1) on " +
 			"every path of NewFixedPool that returns a pool, the same fixedLimit parameter feeds the fixed limit and a precise strategy, the default limiter built from exactly " +
 			"that pair is the delegate of the blocking / queue wrapper stored in the pool for every ordering case, no case leaves the limiter unset, the backlog-size and timeout " +
 			"parameters reach the wrapper's configuration and a negative timeout is normalised first; NewPool wraps the caller's delegate on every case; (O2) pool Acquire " +
 			"returns exactly the wrapped limiter's results. The ordering map is C11/O3. 'Every queued caller is eventually granted within the backlog timeout' is a liveness / " +
-			"timing statement and is not applicable; its structural prerequisites are C10's obligations.",
+			"timing statement and is not applicable; its structural prerequisites are C10's obligations; (O4) the gate (C01) and the backlog bound and membership (C12) of the limiters the pools are built from.",
 	})
 }
 
@@ -29,6 +29,9 @@ func runC19(p *Prog, l *Ledger) {
 	limNamed := p.coreNamed("Limiter")
 	importObligations(p, l, "C10", "O3", nil)
 	importObligations(p, l, "C02", "O3", func(o *Obligation) bool { return o.Rule == "O1" || o.Rule == "O3" || o.Rule == "O4" || o.Rule == "O2" })
+	l.Rule("O4", "the gate and the backlog a pool is built from (decided by the C01 and C12 rules on the same tree): the default limiter's answer is the strategy's atomic decision - never more than the limit, no refusal with room; callers are queued while the backlog is under its bound, the length the bound is checked against is the number of queued callers, and a queued caller leaves only by giving up or with the capacity")
+	importObligations(p, l, "C01", "O4", func(o *Obligation) bool { return o.Rule != "O6" })
+	importObligations(p, l, "C12", "O4", func(o *Obligation) bool { return o.Rule == "O1" || o.Rule == "O2" || o.Rule == "O3" })
 	n := 0
 	for _, T := range p.structTypes("patterns/pool") {
 		lf := fieldsOfType(T, limNamed)
